@@ -27,7 +27,18 @@ _BUILTINS = {"len": len, "int": int, "str": str, "float": float, "abs": abs, "mi
              "bool": bool, "list": list, "tuple": tuple, "set": set, "sorted": sorted, "any": any, "all": all, "sum": sum,
              "enumerate": enumerate, "zip": zip, "reversed": reversed, "ord": ord, "chr": chr, "repr": repr, "dict": dict,
              "frozenset": frozenset, "round": round, "deque": __import__("collections").deque, "count": __import__("itertools").count, "Counter": __import__("collections").Counter, "defaultdict": __import__("collections").defaultdict,
-             "divmod": divmod, "isinstance": isinstance, "map": map, "filter": filter, "iter": iter, "next": next}
+             "divmod": divmod, "isinstance": isinstance, "map": map, "filter": filter, "iter": iter, "next": next,
+             # pure helpers of operator / itertools / functools that code is commonly modernised to
+             "itemgetter": __import__("operator").itemgetter, "attrgetter": __import__("operator").attrgetter,
+             "groupby": __import__("itertools").groupby, "chain": __import__("itertools").chain, "pairwise": __import__("itertools").pairwise,
+             "accumulate": __import__("itertools").accumulate, "islice": __import__("itertools").islice, "dropwhile": __import__("itertools").dropwhile,
+             "takewhile": __import__("itertools").takewhile, "zip_longest": __import__("itertools").zip_longest, "product": __import__("itertools").product,
+             "starmap": __import__("itertools").starmap, "reduce": __import__("functools").reduce, "repeat": __import__("itertools").repeat}
+
+
+def _hash_ordered(v) -> bool:
+    """a set whose iteration order depends on the hash seed (two or more members, some not numbers)"""
+    return isinstance(v, (set, frozenset)) and len(v) >= 2 and any(not isinstance(x, (int, float)) or isinstance(x, bool) for x in v)
 
 
 def _member(a, b):
@@ -73,8 +84,31 @@ def ceval(e: ast.AST, env: dict, stubs: dict | None = None):
             return getattr(b, e.attr)
         if type(b).__name__ == "ConstInst" and e.attr in b.fields:      # a record made by the constant evaluator (model.ConstInst)
             return b.fields[e.attr]
+        if isinstance(b, ModuleValues):
+            if e.attr in b.values:
+                return b.values[e.attr]
+            raise Unsupported(f"partial evaluation: `{norm(e)}` is not a constant of that module")
         if e.attr in getattr(type(b), "__pe_attrs__", ()):
             return getattr(b, e.attr)
+        if isinstance(b, tuple) and hasattr(b, "_fields") and "__pe__" in stubs and f"{type(b).__name__}.{e.attr}" in stubs["__pe__"][0].calls:
+            pe, st_ = stubs["__pe__"]
+            key_ = f"{type(b).__name__}.{e.attr}"
+            if any(norm(d) == "property" for d in pe.calls[key_][0].decorator_list):
+                return pe.call(key_, [b], st_)
+            return _Partial(key_, [b], pe)              # a bound method of a record
+        if isinstance(b, Instance) and "__pe__" in stubs:
+            pe, st_ = stubs["__pe__"]
+            if e.attr in b.attrs:
+                return b.attrs[e.attr]
+            info = pe.instance_classes.get(b.cls, {})
+            key_ = f"{b.cls}.{e.attr}"
+            if key_ in pe.calls:
+                if any(norm(d) == "property" or norm(d).endswith("cached_property") for d in pe.calls[key_][0].decorator_list):
+                    return pe.call(key_, [b], st_)
+                return _Partial(key_, [b], pe)              # a bound method
+            if e.attr in info.get("class_attrs", {}):
+                return info["class_attrs"][e.attr]
+            raise Unsupported(f"partial evaluation: `{norm(e)}`: the object has no `{e.attr}` yet")
         if type(b).__name__ == "SampleGraph" and e.attr == "nodes":
             return b.nodes
         if type(b).__name__ == "SampleGraph" and e.attr == "edges":
@@ -169,7 +203,7 @@ def ceval(e: ast.AST, env: dict, stubs: dict | None = None):
         is_pe_call = is_pe_call or (isinstance(e.func, ast.Name) and isinstance(env.get(e.func.id), type) and hasattr(env.get(e.func.id), "_fields"))
         is_format = isinstance(e.func, ast.Attribute) and e.func.attr == "format"
         is_format = is_format or (isinstance(e.func, ast.Attribute) and isinstance(e.func.value, ast.Name) and hasattr(type(env.get(e.func.value.id)), "__pe_methods__"))
-        if e.keywords and not is_pe_call and not is_format and not all(k.arg in ("maxsplit", "sep", "start", "key", "reverse", "data", "default") for k in e.keywords):
+        if e.keywords and not is_pe_call and not is_format and not all(k.arg in ("maxsplit", "sep", "start", "key", "reverse", "data", "default", "strict", "initial", "fillvalue", "repeat") for k in e.keywords):
             raise Unsupported(f"partial evaluation: keyword arguments in `{norm(e)}`")
         kw = {k.arg: ceval(k.value, env, stubs) for k in e.keywords} if not is_pe_call else {}
         if isinstance(e.func, ast.Name) and e.func.id in _BUILTINS and e.func.id not in env:
@@ -182,6 +216,9 @@ def ceval(e: ast.AST, env: dict, stubs: dict | None = None):
                     argv.extend(list(sv))
                 else:
                     argv.append(ceval(a, env, stubs))
+            if e.func.id in ("list", "tuple", "enumerate", "zip", "iter", "next", "map", "filter", "reversed", "chain", "islice", "groupby", "accumulate", "pairwise", "dict") \
+                    and any(_hash_ordered(a) for a in argv):
+                raise Unsupported("partial evaluation: the members of a set of strings are visited in hash order")
             unk = [a for a in argv if isinstance(a, _Unknown)]
             if unk:
                 g_ = next((a for a in unk if isinstance(a, _GapUnknown)), unk[0])
@@ -217,6 +254,12 @@ def ceval(e: ast.AST, env: dict, stubs: dict | None = None):
                 and e.args[0].id in stubs["__pe__"][0].calls and not e.keywords:
             # functools.partial over a followed function: the function with its first arguments fixed
             return _Partial(e.args[0].id, [ceval(a, env, stubs) for a in e.args[1:]], stubs["__pe__"][0])
+        if isinstance(e.func, ast.Name) and e.func.id in env and any(env[e.func.id] is b_ for b_ in _BUILTINS.values()) and not e.keywords:
+            # a builtin handed around as a value:  convert = int ... convert(text)
+            argv = [ceval(a, env, stubs) for a in e.args]
+            if any(isinstance(a, _Unknown) for a in argv):
+                return next(a for a in argv if isinstance(a, _Unknown))
+            return env[e.func.id](*argv)
         if isinstance(e.func, ast.Name) and getattr(env.get(e.func.id), "__module__", None) in ("_operator", "operator") and callable(env.get(e.func.id)) and not e.keywords:
             argv = [ceval(a, env, stubs) for a in e.args]
             if any(isinstance(a, _Unknown) for a in argv):
@@ -247,6 +290,81 @@ def ceval(e: ast.AST, env: dict, stubs: dict | None = None):
             is_cm = any(norm(d) == "classmethod" for d in fnode_.decorator_list)
             argv = ([pe.record_classes[e.func.value.id]] if is_cm else []) + [ceval(a, env, stubs) for a in e.args]
             return pe.call(key_, argv, st_)
+        if isinstance(e.func, ast.Name) and "__pe__" in stubs and e.func.id in getattr(stubs["__pe__"][0], "instance_classes", {}) and e.func.id not in env:
+            pe, st_ = stubs["__pe__"]
+            info = pe.instance_classes[e.func.id]
+            inst = Instance(e.func.id)
+            argv = [ceval(a, env, stubs) for a in e.args]
+            kws = {k.arg: ceval(k.value, env, stubs) for k in e.keywords}
+            if f"{e.func.id}.__init__" in pe.calls:
+                fnode_ = pe.calls[f"{e.func.id}.__init__"][0]
+                names_ = [a.arg for a in fnode_.args.args][1:]
+                full = list(argv) + [None] * 0
+                # keyword arguments go to their positions
+                for nm_, v_ in kws.items():
+                    if nm_ not in names_:
+                        raise Unsupported(f"partial evaluation: unknown keyword `{nm_}` for {e.func.id}")
+                pos = list(argv)
+                for nm_ in names_[len(argv):]:
+                    if nm_ in kws:
+                        pos.append(kws[nm_])
+                    else:
+                        break
+                if len([n_ for n_ in kws if n_ not in names_[len(argv):len(pos)]]) > 0:
+                    raise Unsupported(f"partial evaluation: keyword arguments of {e.func.id}(...) out of order")
+                pe.call(f"{e.func.id}.__init__", [inst] + pos, st_)
+            elif info.get("fields") is not None:
+                fields = info["fields"]            # dataclass: [(name, default or _NO_DEFAULT)]
+                vals = dict(zip([f_[0] for f_ in fields], argv))
+                vals.update(kws)
+                for nm_, d_ in fields:
+                    if nm_ not in vals:
+                        if d_ is _NO_DEFAULT:
+                            raise Unsupported(f"partial evaluation: {e.func.id}(...) misses `{nm_}`")
+                        vals[nm_] = d_() if callable(d_) else d_
+                inst.attrs.update(vals)
+            elif argv or kws:
+                raise Unsupported(f"partial evaluation: {e.func.id}(...) takes arguments but has no followed constructor")
+            return inst
+        if "__pe__" in stubs and isinstance(e.func, ast.Attribute) and isinstance(e.func.value, (ast.Name, ast.Attribute, ast.Subscript)) and not e.keywords:
+            try:
+                recv_r = ceval(e.func.value, env, stubs)
+            except (Unsupported, UnknownValue):
+                recv_r = None
+            if isinstance(recv_r, tuple) and hasattr(recv_r, "_fields") and f"{type(recv_r).__name__}.{e.func.attr}" in stubs["__pe__"][0].calls:
+                pe, st_ = stubs["__pe__"]
+                return pe.call(f"{type(recv_r).__name__}.{e.func.attr}", [recv_r] + [ceval(a, env, stubs) for a in e.args], st_)
+        if "__pe__" in stubs and isinstance(e.func, ast.Attribute):
+            # a method of a followed object:  writer.add(line), self._wrap(text)
+            try:
+                recv_i = ceval(e.func.value, env, stubs) if isinstance(e.func.value, (ast.Name, ast.Attribute)) else None
+            except (Unsupported, UnknownValue):
+                recv_i = None
+            if isinstance(recv_i, Instance):
+                pe, st_ = stubs["__pe__"]
+                key_ = f"{recv_i.cls}.{e.func.attr}"
+                if key_ in pe.calls:
+                    fnode_ = pe.calls[key_][0]
+                    argv = []
+                    for a in e.args:
+                        if isinstance(a, ast.Starred):
+                            sv = ceval(a.value, env, stubs)
+                            if isinstance(sv, _Unknown):
+                                raise Unsupported("partial evaluation: unknown sequence spread into a call")
+                            argv.extend(list(sv))
+                        else:
+                            argv.append(ceval(a, env, stubs))
+                    names_ = [a.arg for a in fnode_.args.args][1 + len(argv):]
+                    for k in e.keywords:
+                        if names_ and k.arg == names_[0]:
+                            argv.append(ceval(k.value, env, stubs))
+                            names_ = names_[1:]
+                        else:
+                            raise Unsupported(f"partial evaluation: keyword arguments in `{norm(e)}`")
+                    is_static = any(norm(d) == "staticmethod" for d in fnode_.decorator_list)
+                    return pe.call(key_, ([] if is_static else [recv_i]) + argv, st_)
+                if e.func.attr in recv_i.attrs and isinstance(recv_i.attrs[e.func.attr], (_Partial, _Lambda)):
+                    return recv_i.attrs[e.func.attr](*[ceval(a, env, stubs) for a in e.args])
         if isinstance(e.func, ast.Name) and "__pe__" in stubs and e.func.id in getattr(stubs["__pe__"][0], "record_classes", {}) and e.func.id not in env:
             cls_ = stubs["__pe__"][0].record_classes[e.func.id]
             argv = [ceval(a, env, stubs) for a in e.args]
@@ -291,6 +409,8 @@ def ceval(e: ast.AST, env: dict, stubs: dict | None = None):
                 unk = [a for a in argv + list(kw.values()) if isinstance(a, _Unknown) or (isinstance(a, (list, tuple)) and any(isinstance(x_, _Unknown) for x_ in a))]
                 if unk:
                     return unk[0] if isinstance(unk[0], _Unknown) else next(x_ for x_ in unk[0] if isinstance(x_, _Unknown))
+                if m == "join" and argv and _hash_ordered(argv[0]):
+                    raise Unsupported("partial evaluation: the members of a set of strings are joined in hash order")
                 return getattr(recv, m)(*argv, **kw)
             if isinstance(recv, (list, tuple)) and m in _LIST_METHODS:
                 return getattr(recv, m)(*[ceval(a, env, stubs) for a in e.args])
@@ -312,6 +432,14 @@ def ceval(e: ast.AST, env: dict, stubs: dict | None = None):
                 return getattr(recv, m)(*[ceval(a, env, stubs) for a in e.args])
             if isinstance(recv, _re.Match) and m in ("group", "groups", "start", "end", "span", "groupdict"):
                 return getattr(recv, m)(*[ceval(a, env, stubs) for a in e.args])
+        if "__pe__" in stubs and isinstance(e.func, (ast.Attribute, ast.Subscript)) and not e.keywords:
+            # a callable kept in a field or a table:  prop.is_valid(value), HANDLERS[kind](line)
+            try:
+                fv = ceval(e.func, env, stubs)
+            except (Unsupported, UnknownValue):
+                fv = None
+            if isinstance(fv, (_Lambda, _Partial)):
+                return fv(*[ceval(a, env, stubs) for a in e.args])
         raise Unsupported(f"partial evaluation: call `{norm(e)}`")
     if isinstance(e, ast.Lambda):
         return _Lambda(e, dict(env), stubs)
@@ -323,7 +451,10 @@ def ceval(e: ast.AST, env: dict, stubs: dict | None = None):
                 out_dc[ceval(e.key, env_, stubs)] = ceval(e.value, env_, stubs)
                 return
             g = e.generators[i]
-            for item in ceval(g.iter, env_, stubs):
+            src_ = ceval(g.iter, env_, stubs)
+            if _hash_ordered(src_):
+                raise Unsupported("partial evaluation: the members of a set of strings are visited in hash order")
+            for item in src_:
                 env2 = dict(env_)
                 _bind(g.target, item, env2)
                 if all(ceval(c, env2, stubs) for c in g.ifs):
@@ -338,7 +469,10 @@ def ceval(e: ast.AST, env: dict, stubs: dict | None = None):
                 out.append(ceval(e.elt, env, stubs))
                 return
             g = e.generators[i]
-            for item in ceval(g.iter, env, stubs):
+            src_ = ceval(g.iter, env, stubs)
+            if _hash_ordered(src_) and not isinstance(e, ast.SetComp):
+                raise Unsupported("partial evaluation: the members of a set of strings are visited in hash order")
+            for item in src_:
                 env2 = dict(env)
                 _bind(g.target, item, env2)
                 if all(ceval(c, env2, stubs) for c in g.ifs):
@@ -462,6 +596,27 @@ class _Unknown:
 
 
 UNKNOWN = _Unknown()
+_NO_DEFAULT = object()
+
+
+class Instance:
+    """an object of one of the repository's plain classes (followed: its methods are in PathEval.calls as `Class.method`)"""
+
+    def __init__(self, cls: str):
+        self.cls = cls
+        self.attrs: dict = {}
+
+    def __repr__(self):
+        return f"<{self.cls} {self.attrs!r}>"
+
+    # what Python would look up on the class (comparison, text, truth, length, iteration) is not modelled: using the object
+    # in such a place ends the evaluation of that sample instead of giving object-identity semantics silently
+    def _unmodelled(self, *a, **k):
+        raise Unsupported(f"partial evaluation: an object of class {self.cls} is compared, printed, tested or iterated")
+    __eq__ = __ne__ = __lt__ = __le__ = __gt__ = __ge__ = __str__ = __format__ = __bool__ = __len__ = __iter__ = __contains__ = _unmodelled
+
+    def __hash__(self):
+        return id(self)
 
 
 class _Lambda:
@@ -490,6 +645,13 @@ class _Partial:
         if self.pe is None:
             raise Unsupported("partial evaluation: function value called outside the evaluator")
         return self.pe.call(self.name, list(self.args) + list(args), PState({}))
+
+
+class ModuleValues:
+    """a module of the repository imported under a name (`import tucan.graph_attributes as ga`): its constants"""
+
+    def __init__(self, values: dict):
+        self.values = values
 
 
 class ContextDefault:
@@ -551,7 +713,13 @@ def _gap(stubs, what):
 
 
 def _stored_names(node):
-    return {n.id for n in ast.walk(node) if isinstance(n, ast.Name) and isinstance(n.ctx, ast.Store)}
+    out = {n.id for n in ast.walk(node) if isinstance(n, ast.Name) and isinstance(n.ctx, ast.Store)}
+    for n in ast.walk(node):
+        if isinstance(n, (ast.MatchAs, ast.MatchStar)) and n.name is not None:
+            out.add(n.name)
+        elif isinstance(n, ast.MatchMapping) and n.rest is not None:
+            out.add(n.rest)
+    return out
 
 
 def _value(e, env, stubs, what):
@@ -855,6 +1023,7 @@ class PathEval:
         self.try_depth = 0
         self.opaque_classes: set[str] = set()      # names of repository classes whose instances are not followed
         self.record_classes: dict = {}             # name -> namedtuple class rebuilt from a NamedTuple class of the repository
+        self.instance_classes: dict = {}           # name -> {"fields": dataclass fields or None, "class_attrs": {...}} of plain classes
         self.stop: dict[int, str] = {}             # id(statement) -> tag: a path that arrives there ends, leaving as 'stop:<tag>'
 
     def gap(self, what: str):
@@ -990,6 +1159,93 @@ class PathEval:
                 break
         return states, lefts
 
+    def _match(self, pat, subj, binds: dict, s: PState) -> bool:
+        """structural pattern matching on a known subject (PEP 634); captures go to `binds`"""
+        if isinstance(pat, ast.MatchValue):
+            v = self.ev(pat.value, s)
+            if isinstance(v, _Unknown):
+                raise Unsupported("pattern value not determined")
+            return subj == v
+        if isinstance(pat, ast.MatchSingleton):
+            return subj is pat.value
+        if isinstance(pat, ast.MatchAs):
+            if pat.pattern is not None and not self._match(pat.pattern, subj, binds, s):
+                return False
+            if pat.name is not None:
+                binds[pat.name] = subj
+            return True
+        if isinstance(pat, ast.MatchOr):
+            for alt in pat.patterns:
+                b2: dict = {}
+                if self._match(alt, subj, b2, s):
+                    binds.update(b2)
+                    return True
+            return False
+        if isinstance(pat, ast.MatchSequence):
+            if isinstance(subj, (str, bytes, dict, set)) or not isinstance(subj, (list, tuple)) and type(subj).__name__ != "deque":
+                return False
+            items = list(subj)
+            stars = [i for i, p_ in enumerate(pat.patterns) if isinstance(p_, ast.MatchStar)]
+            if not stars:
+                if len(items) != len(pat.patterns):
+                    return False
+                return all(self._match(p_, x_, binds, s) for p_, x_ in zip(pat.patterns, items))
+            i = stars[0]
+            after = len(pat.patterns) - i - 1
+            if len(items) < len(pat.patterns) - 1:
+                return False
+            head, mid, tail = items[:i], items[i:len(items) - after], items[len(items) - after:]
+            if not all(self._match(p_, x_, binds, s) for p_, x_ in zip(pat.patterns[:i], head)):
+                return False
+            if not all(self._match(p_, x_, binds, s) for p_, x_ in zip(pat.patterns[i + 1:], tail)):
+                return False
+            if pat.patterns[i].name is not None:
+                binds[pat.patterns[i].name] = list(mid)
+            return True
+        if isinstance(pat, ast.MatchMapping):
+            if not isinstance(subj, dict):
+                return False
+            keys = []
+            for k_, p_ in zip(pat.keys, pat.patterns):
+                kv = self.ev(k_, s)
+                if isinstance(kv, _Unknown):
+                    raise Unsupported("pattern key not determined")
+                if kv not in subj:
+                    return False
+                keys.append(kv)
+                if not self._match(p_, subj[kv], binds, s):
+                    return False
+            if pat.rest is not None:
+                binds[pat.rest] = {k_: v_ for k_, v_ in subj.items() if k_ not in keys}
+            return True
+        if isinstance(pat, ast.MatchClass):
+            cname = norm(pat.cls)
+            builtin = {"str": str, "int": int, "float": float, "bool": bool, "list": list, "tuple": tuple, "dict": dict, "set": set, "bytes": bytes}
+            if cname in builtin:
+                if not isinstance(subj, builtin[cname]) or (cname == "int" and isinstance(subj, bool)):
+                    return False
+                if pat.patterns:
+                    if len(pat.patterns) != 1 or pat.kwd_patterns:
+                        raise Unsupported("class pattern on a builtin with several sub-patterns")
+                    return self._match(pat.patterns[0], subj, binds, s)
+                return True
+            rc = self.record_classes.get(cname)
+            if rc is not None:
+                if not isinstance(subj, rc):
+                    return False
+                fields = rc._fields
+                if len(pat.patterns) > len(fields):
+                    return False
+                for p_, f_ in zip(pat.patterns, fields):
+                    if not self._match(p_, getattr(subj, f_), binds, s):
+                        return False
+                for a_, p_ in zip(pat.kwd_attrs, pat.kwd_patterns):
+                    if a_ not in fields or not self._match(p_, getattr(subj, a_), binds, s):
+                        return False
+                return True
+            raise Unsupported(f"class pattern `{cname}`")
+        raise Unsupported(f"pattern {type(pat).__name__}")
+
     def _store(self, target, v, s: PState):
         if isinstance(target, ast.Name):
             s.env[target.id] = v
@@ -1025,7 +1281,11 @@ class PathEval:
                     if val is obj:
                         s.env[nm] = GAP if isinstance(k, _GapUnknown) else UNKNOWN
         elif isinstance(target, ast.Attribute):
-            self.gap(f"store to attribute `{norm(target)[:40]}`")
+            obj = self.ev(target.value, s)
+            if isinstance(obj, Instance):
+                obj.attrs[target.attr] = v
+            else:
+                self.gap(f"store to attribute `{norm(target)[:40]}`")
         elif isinstance(target, ast.Starred):
             self._store(target.value, v, s)
 
@@ -1118,6 +1378,43 @@ class PathEval:
         if isinstance(node, ast.For):
             it = self.ev(node.iter, s, f"loop over `{norm(node.iter)[:40]}`")
             self._poison(s)
+            if _hash_ordered(it):
+                self.gap(f"loop over `{norm(node.iter)[:40]}`: the members of a set of strings are visited in hash order")
+                for nm in _stored_names(node):
+                    s.env[nm] = GAP
+                return [s], []
+            lazy = hasattr(it, "__next__") and type(it).__name__ not in ("count", "cycle", "repeat")
+            if lazy:
+                # an iterator object (iter(x), a zip, ...) may be advanced inside the body as well (next(it)): pull one item
+                # per pass instead of reading it out in advance
+                live, after, lefts = [s], [], []
+                passes = 0
+                while live:
+                    if len(live) > 1:
+                        raise Unsupported("an iterator is advanced on several ways at once")
+                    try:
+                        item = next(it)
+                    except StopIteration:
+                        break
+                    passes += 1
+                    if passes > 5000:
+                        raise Unsupported("loop over an iterator does not end on the sample")
+                    st_ = live[0]
+                    self._store(node.target, item, st_)
+                    f, l = self.block(node.body, [st_])
+                    live = list(f)
+                    for ls, how, v in l:
+                        if how == "continue":
+                            live.append(ls)
+                        elif how == "break":
+                            after.append(ls)
+                        else:
+                            lefts.append((ls, how, v))
+                if node.orelse and live:
+                    f, l = self.block(node.orelse, live)
+                    live = f
+                    lefts += l
+                return live + after, lefts
             try:
                 items = None if isinstance(it, _Unknown) or type(it).__name__ in ("count", "cycle", "repeat") else list(it)
             except (NameError, UnboundLocalError):
@@ -1283,6 +1580,35 @@ class PathEval:
                 if it.optional_vars is not None:
                     self._store(it.optional_vars, v, s)
             return self.block(node.body, [s])
+        if isinstance(node, ast.Match):
+            subj = self.ev(node.subject, s, "match subject")
+            self._poison(s)
+            if isinstance(subj, _Unknown):
+                self.gap(f"`match {norm(node.subject)[:40]}`: the subject is not determined by the sample")
+                for nm in _stored_names(node):
+                    s.env[nm] = GAP
+                return [s], []
+            for case in node.cases:
+                binds: dict = {}
+                try:
+                    hit = self._match(case.pattern, subj, binds, s)
+                except Unsupported as ex:
+                    self.gap(f"`case {norm(case.pattern)[:40]}`: {ex}")
+                    for nm in _stored_names(node):
+                        s.env[nm] = GAP
+                    return [s], []
+                if not hit:
+                    continue
+                s.env.update(binds)
+                if case.guard is not None:
+                    t = self.test(case.guard, s)
+                    if t is None:
+                        self.gap(f"guard `{norm(case.guard)[:40]}` is not decided by the sample")
+                        return [s], []
+                    if not t:
+                        continue
+                return self.block(case.body, [s])
+            return [s], []
         if isinstance(node, ast.FunctionDef) and not node.decorator_list:
             # a local function: followed like the others, seeing the names of the enclosing function as they are now and later
             # (the environment is shared, not copied)
@@ -1308,10 +1634,17 @@ def _as_load(t):
     return t2
 
 
-def record_class_of(cls_node: ast.ClassDef):
+def record_class_of(cls_node: ast.ClassDef, allow_str: bool = False):
     """a namedtuple class with the fields (and constant defaults) of a `class X(NamedTuple)` of the repository, or None"""
     import collections
     if not any(norm(b).endswith("NamedTuple") for b in cls_node.bases):
+        return None
+    # a record class that redefines what Python looks up implicitly (comparison, text, length, ...) does not behave like the
+    # plain tuple it is rebuilt as; only __str__ is bridged (by common.sample_evaluator)
+    dunders = {st.name for st in cls_node.body if isinstance(st, ast.FunctionDef) and st.name.startswith("__") and st.name.endswith("__")}
+    if dunders - {"__str__"}:
+        return None
+    if dunders and not allow_str:
         return None
     fields, defaults = [], []
     for st in cls_node.body:
